@@ -284,6 +284,10 @@ class ModelCompiler:
                 if any(isinstance(el, list) for el in defn.cells):
                     for column in defn.cells:
                         for row_address in column:
+                            # A range may cover cells in which nothing is
+                            # stored, or lie on an ignored sheet.
+                            if row_address not in self.model.cells:
+                                continue
                             self.model.cells[row_address].defined_names.append(
                                 name)
                 else:
